@@ -156,7 +156,7 @@ def _families_of(case, m):
         f = tuple(x for x in f if x not in (
             "break_multi_loop_last", "break_multi_jobtail",
             "break_loop_tail_of_loop", "break_loop_tail_of_loop_jobtail",
-            "empty_break_loop_tail_of_loop",
+            "empty_break_loop_tail_of_loop", "break_loop_tail_of_loop_deep",
             "break_loop_tail_of_fork_ending_loop",
             "empty_break_beside_break", "empty_break_beside_break_seqlast"))
     if "break_multi_jobtail" in f:
@@ -176,7 +176,8 @@ def _families_of(case, m):
         # loop shapes, text does not even parse)
         out.append("PV-F-C-break-loop-at-tail-of-loop-body"
                    + ("" if ("break_loop_tail_of_loop_jobtail" in f
-                             or "empty_break_loop_tail_of_loop" in f)
+                             or "empty_break_loop_tail_of_loop" in f
+                             or "break_loop_tail_of_loop_deep" in f)
                       else "#not-jobtail"))
     if "break_loop_tail_of_fork_ending_loop" in f:
         out.append("PV-F-C2-break-loop-ends-fork-branch-ending-loop-body")
